@@ -1,16 +1,17 @@
 (* C22 - No input makes the library panic, abort or hang.
    Property theorems only.  PARTIAL by nature: what is proved is the SQL lexer (src/sql/lexer.rs)
-   and the slicing literal parsers of src/parsing/literal.rs, on hand-written models that the
-   correspondence run compares with the compiled code.  Parser / planner / executor are explored
-   with a crash oracle (harness/src/bin/c22.rs), not proved. *)
+   and the slicing literal parsers of src/parsing/literal.rs, on hand-written models of the code
+   as repaired by /repo adf5bcc and d86c1b1, which the correspondence run compares with the compiled
+   code.  Parser / planner / executor are explored with a crash oracle (harness/src/bin/c22.rs),
+   not proved. *)
 From Coq Require Import ZArith List Bool.
 From TV Require Import Model.Lexer Model.Literal Proof.LexerTotal Proof.Literal Proof.LexerDepth.
 Import ListNotations.
 Open Scope Z_scope.
 
 (* EVERY byte string: no loop of the lexer runs out of the fuel S (length s): the caller's loop
-   `next_token until Eof` ends within length s + 1 calls, every inner loop within length s + 1
-   iterations, every chain of nested next_token calls (comments) within length s + 1 frames *)
+   `next_token until Eof` ends within length s + 1 calls, every inner loop and the comment-skipping
+   loop of next_token within length s + 1 iterations *)
 Theorem lexer_total : forall s, lex s <> OutOfFuel.
 Proof. exact lexer_total_l. Qed.
 
@@ -29,28 +30,17 @@ Theorem lexer_no_panic :
     exists toks st d, lex s = Ok (toks, st, d) /\ last_is_eof toks.
 Proof. exact lexer_no_panic_l. Qed.
 
-(* EVERY valid UTF-8 text outside the four recorded input classes: parse_hex_blob, parse_binary_blob,
-   parse_time, parse_uuid, parse_vector, LiteralParser::parse, LiteralParser::parse_typed(text)
-   do not panic (they return Ok or Err) ... *)
+(* EVERY valid UTF-8 text: parse_hex_blob, parse_binary_blob, parse_time, parse_uuid, parse_vector,
+   LiteralParser::parse, LiteralParser::parse_typed(text) do not panic (they return Ok or Err) *)
 Theorem literal_no_panic :
-  forall f l, utf8_valid l = true -> lit_known f l = 0 -> run_lit f l <> Some LitPanic.
+  forall f l, utf8_valid l = true -> run_lit f l <> Some LitPanic.
 Proof. exact literal_no_panic_l. Qed.
 
-(* ... and inside each class the real parser does panic (known findings F-C22-1..4: the witnesses
-   are replayed on the compiled code by every run) *)
-Theorem literal_no_panic_refuted :
-  (exists l, utf8_valid l = true /\ lit_known f_hex l = 1 /\ run_lit f_hex l = Some LitPanic) /\
-  (exists l, utf8_valid l = true /\ lit_known f_bin l = 2 /\ run_lit f_bin l = Some LitPanic) /\
-  (exists l, utf8_valid l = true /\ lit_known f_time l = 3 /\ run_lit f_time l = Some LitPanic) /\
-  (exists l, utf8_valid l = true /\ lit_known f_lp l = 4 /\ run_lit f_lp l = Some LitPanic) /\
-  (exists l, utf8_valid l = true /\ lit_known f_lpt l = 4 /\ run_lit f_lpt l = Some LitPanic).
-Proof. exact literal_no_panic_refuted_l. Qed.
-
-(* EVERY n below 2^32 - 1: on n consecutive comments "--\n" next_token calls itself n times before
-   it returns Eof (last component of the result = nested self.next_token() calls = Rust stack frames):
-   the recursion depth is bounded by nothing but the input length.  The resulting stack overflow of
-   the real lexer is finding F-C22-12 (witness replayed on the compiled code by every run). *)
-Theorem lexer_comment_recursion :
+(* EVERY n below 2^32 - 1: n consecutive comments "--\n" are skipped by n iterations of the loop
+   inside ONE call of next_token, which then returns Eof (last component of the result = comments
+   skipped by that call).  In the lexer before /repo d86c1b1 the same count was the depth of nested
+   self.next_token() calls, which overflowed the stack (finding F-C22-12, fixed). *)
+Theorem lexer_comments_iterated :
   forall n, Z.of_nat n < 4294967295 ->
     lex (comments n) = Ok ([L (T 0) (3 * n) (3 * n)], mkLx (3 * n) (1 + Z.of_nat n) 1, n).
 Proof. exact lexer_comment_depth_l. Qed.
@@ -69,35 +59,37 @@ Proof. vm_compute. split; reflexivity. Qed.
 Example lexer_utf8_hypothesis_needed : utf8_valid [97; 169] = false /\ lex [97; 169] = Panic.
 Proof. vm_compute. split; reflexivity. Qed.
 
-(* a concrete instance of lexer_comment_recursion below, by evaluation, with a comment body *)
-Example lexer_comment_recursion_300 :
-  match lex (concat (repeat [45; 45; 99; 10] 300)) with Ok (_, _, d) => d = 300%nat | _ => False end.
+(* comments with a body, block comments, and a token after them *)
+Example lexer_comments_mixed :
+  lex (concat (repeat [45; 45; 99; 10; 47; 42; 42; 47] 20) ++ [49]) =
+    Ok ([L (TS 5 160 161) 160 161; L (T 0) 161 161], mkLx 161 21 6, 40%nat).
 Proof. vm_compute. reflexivity. Qed.
 
-(* the literal theorem is not vacuous: valid, unclassified inputs with all three outcomes *)
+(* the literal theorem is not vacuous: all outcomes occur; the witnesses of the fixed findings
+   F-C22-1..4 (historical: they panicked before /repo adf5bcc) are now errors / plain text *)
 Example literal_witness :
-  lit_known f_hex [48; 97; 70; 70] = 0 /\ run_lit f_hex [48; 97; 70; 70] = Some (LitBytes [10; 255]) /\
-  lit_known f_time [49; 50; 58; 51; 52; 58; 53; 54; 46; 53] = 0 /\
+  run_lit f_hex [48; 97; 70; 70] = Some (LitBytes [10; 255]) /\
   run_lit f_time [49; 50; 58; 51; 52; 58; 53; 54; 46; 53] = Some (LitNum 45296500000) /\
-  lit_known f_lp [39; 195; 169; 39] = 0 /\ run_lit f_lp [39; 195; 169; 39] = Some (LitClass (CText [195; 169])) /\
+  run_lit f_lp [39; 195; 169; 39] = Some (LitClass (CText [195; 169])) /\
   run_lit f_hex [122; 122] = Some LitErr.
 Proof. vm_compute. repeat split; reflexivity. Qed.
+
+Example literal_former_witnesses :
+  run_lit f_hex [97; 195; 169; 97] = Some LitErr /\
+  run_lit f_bin [48; 48; 48; 48; 48; 48; 48; 195; 169] = Some LitErr /\
+  run_lit f_time [49; 50; 58; 48; 48; 58; 48; 48; 46; 49; 50; 51; 52; 53; 195; 169] = Some LitErr /\
+  run_lit f_lp [39] = Some (LitClass COther) /\
+  run_lit f_lpt [34] = Some (LitClass (CText [34])).
+Proof. exact literal_former_witnesses_l. Qed.
 
 Check lexer_total : forall s, lex s <> OutOfFuel.
 Check lexer_progress : forall s st t ts st' d, (pos st <= length s)%nat -> next_token s (lfuel s) st = Ok (t, ts, st', d) -> (pos st <= pos st' <= length s)%nat /\ (is_eof_tok t = false -> (pos st < pos st')%nat).
 Check lexer_no_panic : forall s, utf8_valid s = true -> Z.of_nat (length s) < 2 ^ 31 -> exists toks st d, lex s = Ok (toks, st, d) /\ last_is_eof toks.
-Check literal_no_panic : forall f l, utf8_valid l = true -> lit_known f l = 0 -> run_lit f l <> Some LitPanic.
-Check literal_no_panic_refuted :
-  (exists l, utf8_valid l = true /\ lit_known f_hex l = 1 /\ run_lit f_hex l = Some LitPanic) /\
-  (exists l, utf8_valid l = true /\ lit_known f_bin l = 2 /\ run_lit f_bin l = Some LitPanic) /\
-  (exists l, utf8_valid l = true /\ lit_known f_time l = 3 /\ run_lit f_time l = Some LitPanic) /\
-  (exists l, utf8_valid l = true /\ lit_known f_lp l = 4 /\ run_lit f_lp l = Some LitPanic) /\
-  (exists l, utf8_valid l = true /\ lit_known f_lpt l = 4 /\ run_lit f_lpt l = Some LitPanic).
-Check lexer_comment_recursion : forall n, Z.of_nat n < 4294967295 -> lex (comments n) = Ok ([L (T 0) (3 * n) (3 * n)], mkLx (3 * n) (1 + Z.of_nat n) 1, n).
+Check literal_no_panic : forall f l, utf8_valid l = true -> run_lit f l <> Some LitPanic.
+Check lexer_comments_iterated : forall n, Z.of_nat n < 4294967295 -> lex (comments n) = Ok ([L (T 0) (3 * n) (3 * n)], mkLx (3 * n) (1 + Z.of_nat n) 1, n).
 
 Print Assumptions lexer_total.
 Print Assumptions lexer_progress.
 Print Assumptions lexer_no_panic.
 Print Assumptions literal_no_panic.
-Print Assumptions literal_no_panic_refuted.
-Print Assumptions lexer_comment_recursion.
+Print Assumptions lexer_comments_iterated.
